@@ -26,6 +26,23 @@ EXPLANATION = (
 ONLY_CORRESPONDENCE = ["error classes of the real parsers on arbitrary strings (mutation streams; the parsers' models are C07)"]
 
 
+def separator_shifts(hs: str):
+    """a field separator moved by 1..3 characters to either side (the same characters, split elsewhere: both neighbouring fields altered)"""
+    out = set()
+    n = len(hs)
+    for sep in "$,":
+        for i, c in enumerate(hs):
+            if c != sep or i == 0:
+                continue
+            for k in (1, 2, 3):
+                if i - k > 0 and sep not in hs[i - k:i]:
+                    out.add(hs[:i - k] + sep + hs[i - k:i] + hs[i + 1:])
+                if i + k < n and sep not in hs[i + 1:i + 1 + k]:
+                    out.add(hs[:i] + hs[i + 1:i + 1 + k] + sep + hs[i + 1 + k:])
+    out.discard(hs)
+    return out
+
+
 def structural_mutants(hs: str, rng, dense: bool):
     out = set(fc.mutants(hs, rng, 30 if not dense else 200))
     n = len(hs)
@@ -44,6 +61,7 @@ def structural_mutants(hs: str, rng, dense: bool):
         rng.shuffle(p2)
         out.add("$".join(p2))
         out.add("$".join(parts[:-2] + [parts[-1], parts[-2]]))       # reordered fields
+    out |= separator_shifts(hs)
     out |= {hs.swapcase(), hs.upper(), hs.lower(), hs + hs, "", " ", "\x00", "x", "$", "$$$", hs.replace("$", ""), hs.replace("$", "$$")}
     out |= field_mutants(hs, rng, dense)
     out.discard(hs)
@@ -309,6 +327,7 @@ def oracle(ctx, o, first_only=False):
     for hh in (SHA256Hasher(rounds=1000), SHA512Hasher(rounds=1000), PBKDF2SHA256Handler(rounds=2), PBKDF2SHA512Handler(rounds=2), BcryptHasher(rounds=4), BcryptSHA256Hasher(rounds=4)):
         hs = hh.hash("password")
         lp_muts = structural_mutants(hs, rng, ctx.thorough)[: (80 if not ctx.thorough else None)]
+        lp_muts = sorted(set(lp_muts) | separator_shifts(hs))
         if "PBKDF2" in type(hh).__name__:
             lp_muts = list(lp_muts) + [hs.replace("$2$", "$" + v + "$", 1) for v in huge]
         for m in lp_muts:
